@@ -173,7 +173,8 @@ func VerifH_C15_two()     { verifC15(true) }
 // callback until Stop() has been called.  If the batch was handled completely, its event must have been
 // released exactly once by the time Stop() returns and the semaphore must be back to zero.
 func VerifH_C15_stop() {
-	capacity := dag.Metric{Num: 100, Size: 1 << 30}
+	// the capacity fits exactly ONE event
+	capacity := dag.Metric{Num: 1, Size: 1 << 30}
 	warned := 0
 	sem := datasemaphore.New(capacity, func(dag.Metric, dag.Metric, dag.Metric) { warned++ })
 	highest := idx.Lamport(sym.U32("highest"))
@@ -225,7 +226,12 @@ func VerifH_C15_stop() {
 		time.Sleep(60 * time.Millisecond)
 	}
 	sym.Assert(checked != nil, "every event of an accepted batch is checked")
-	checked(checkErr)
+	complete := sym.Bool("checkCompletes") // the check may also never report before the stop: the batch stays in flight
+	if complete {
+		checked(checkErr)
+	} else {
+		sym.Reach("check-never-completes")
+	}
 	if sym.Symbolic() {
 		sym.YieldOnWaitGroup(true)
 		ran := false
@@ -239,7 +245,7 @@ func VerifH_C15_stop() {
 		})
 		p.Stop()
 	} else {
-		if checkErr == nil {
+		if checkErr == nil && complete {
 			<-inTask // the inserter is inside process()
 		} else {
 			time.Sleep(60 * time.Millisecond)
@@ -250,7 +256,16 @@ func VerifH_C15_stop() {
 		close(gate)
 		<-stopped
 	}
-	finished := handled == 1 || (checkErr != nil && done == 1 && released == 1)
+	// a second batch offered after the stop: whatever is still held, the semaphore never goes above its capacity
+	e2 := &dag.MutableBaseEvent{}
+	e2.SetEpoch(1)
+	e2.SetSeq(2)
+	e2.SetLamport(1)
+	e2.SetID([24]byte{2})
+	_ = p.Enqueue("peer", dag.Events{e2}, false, nil, nil)
+	heldAfter := sem.Processing()
+	sym.Assert(heldAfter.Num <= capacity.Num && heldAfter.Size <= capacity.Size, "the semaphore holds the accepted events and never exceeds its capacity")
+	finished := complete && (handled == 1 || (checkErr != nil && done == 1 && released == 1))
 	if finished {
 		sym.Assert(released == 1, "every event of a batch that was handled completely is released exactly once by the time the processor is stopped")
 		end := sem.Processing()
